@@ -8,11 +8,11 @@
    encoder.go, l1 l2 l3 lp = libm, jd = encoding/json decoder.
    Hypothesis pf_bigint (stated where used): ParseFloat of the decimal digits of an integer is the
    correctly rounded double (Z2F = Flocq round-to-nearest-even), +-Inf beyond the range. *)
-From Coq Require Import List ZArith NArith Bool String.
+From Coq Require Import List ZArith NArith Bool String Permutation.
 From Flocq Require Import IEEE754.BinarySingleNaN.
 From Verif Require Import common.Sexp common.Int64 gen.GenFuncTable
   c03.JV c03.FloatText c03.Core c03.Ops c03.Natives c03.Dispatch c03.Spec c03.Wf c03.TableProofs
-  c03.NoPanic3 c03.DispatchTotal c03.Denote c03.CompareDoc c03.OpsDoc c03.NativesDoc c03.NativesDoc2 c03.NativesDoc3 c03.ContainsDoc c03.IndicesDoc c03.StringsDoc c03.RepIndep c03.Run.
+  c03.NoPanic3 c03.DispatchTotal c03.Denote c03.CompareDoc c03.OpsDoc c03.NativesDoc c03.NativesDoc2 c03.NativesDoc3 c03.ContainsDoc c03.IndicesDoc c03.StringsDoc c03.PathDoc c03.FlattenDoc c03.SortDoc c03.RangeDoc c03.TextDoc c03.SimpleDoc c03.SliceDoc c03.RepIndep c03.Run.
 Import ListNotations.
 Open Scope Z_scope.
 
@@ -136,6 +136,107 @@ Proof.
     (conj (f_split_doc pf v x WV WX) (conj (f_implode_doc pf v WV) (op_div_doc_all pf H v x WV WX))))))))))))))).
 Qed.
 Print Assumptions C03_natives_meet_doc3.
+(* fourth batch: paths, flatten, range *)
+Theorem C03_paths_flatten_range_meet_doc : forall pf, (forall z, big_to_float pf z = Z2F z) ->
+  (* .[k] on null / array / object with a string or integer key (any representation; arrays shorter than 2^63) *)
+  (forall v x, wf v = true -> wf x = true -> sized v = true -> (match v with JStr _ => False | _ => True end) ->
+     (forall f, denote pf x <> MFlt f) -> (forall l, denote pf x <> MArr l) -> (forall m, denote pf x <> MObj m) ->
+     agrees pf (f_index2 pf v x) (step_spec (denote pf v) (denote pf x)))
+  (* getpath along such keys *)
+  /\ (forall v path, wf v = true -> sized v = true -> Forall (pkey pf) path ->
+       ragrees pf (f_getpath pf v (JArr path)) (s_getpath (map (denote pf) path) (denote pf v)))
+  (* reading back a path just written (string keys and non-negative int indices) *)
+  /\ (forall path v n u, Forall simple_key path -> is_hole n = false -> hole_free v = true ->
+       update pf path v n = Val u -> getpath_loop pf path u = Val n)
+  (* flatten/0 on values nested at most 1000 deep; flatten/1 with integer depth (|depth| <= 1000) *)
+  /\ (forall v, wf v = true -> (forall vs, values v = Some vs -> Forall (fun x => (nest x <= 999)%nat) vs) ->
+       ragrees pf (f_flatten pf v []) (s_flatten (denote pf v) None))
+  /\ (forall v a, wf v = true -> wf a = true -> ragrees pf (f_flatten pf v [a]) (s_flatten (denote pf v) (Some (denote pf a))))
+  (* _range on integers in any representation: the documented progression (first [fuel] outputs) *)
+  /\ (forall fuel v e s x upto by_, wf v = true -> wf e = true -> wf s = true ->
+       denote pf v = MInt x -> denote pf e = MInt upto -> denote pf s = MInt by_ ->
+       exists l cut, range_seq pf fuel v e s = Val (l, cut) /\ map (denote pf) l = map MInt (fst (zprog fuel x upto by_))
+                     /\ cut = snd (zprog fuel x upto by_)).
+Proof.
+  exact (fun pf H => conj (f_index2_step pf H) (conj (f_getpath_doc pf H) (conj (setpath_getpath pf)
+    (conj (f_flatten0_doc pf) (conj (f_flatten1_doc pf H) (range_seq_doc pf H)))))).
+Qed.
+Print Assumptions C03_paths_flatten_range_meet_doc.
+
+(* sort / sort_by / unique / unique_by / group_by against the model's Compare (the order itself:
+   C03_compare_is_documented_order): a permutation of the input whose adjacent keys are never out of order
+   whenever Compare is asymmetric on the keys (it is away from NaN); unique keeps the first value of each
+   run of Compare-equal keys; group_by cuts the sorted values into non-empty groups *)
+Theorem C03_sort_family : forall pf,
+  (forall by_ vs xs items, sort_items pf by_ (JArr vs) (JArr xs) = Val items ->
+     Permutation items (combine vs xs) /\
+     ((forall a b, item_less pf a b = true -> item_less pf b a = false) -> lsorted pf items))
+  /\ (forall by_ vs xs out, f_unique_by pf by_ (JArr vs) (JArr xs) = Val out ->
+       exists items sel, sort_items pf by_ (JArr vs) (JArr xs) = Val items /\ out = JArr sel /\ kept pf true JNull items sel)
+  /\ (forall vs xs out, f_group_by pf (JArr vs) (JArr xs) = Val out ->
+       exists items groups, sort_items pf true (JArr vs) (JArr xs) = Val items /\ out = JArr (map JArr groups)
+         /\ List.concat groups = map fst items /\ Forall (fun g => g <> []) groups).
+Proof. exact (fun pf => conj (sort_items_doc pf) (conj (f_unique_by_doc pf) (f_group_by_doc pf))). Qed.
+Print Assumptions C03_sort_family.
+
+(* text: join/1 on scalars with a string separator; the row rules of @csv / @tsv / @sh; tostring / @text /
+   format dispatch *)
+Theorem C03_text_rules : forall pf ff,
+  (forall vs sep texts, vs <> [] -> all_some_b (map (cell_text ff) vs) = Some texts ->
+     f_join pf ff (JArr vs) (JStr sep) = Val (JStr (join_bytes sep texts)))
+  /\ (forall sh sep escape vs cells, all_some_b (map (row_cell ff sh escape) vs) = Some cells ->
+       format_join ff sh sep escape (JArr vs) = Val (JStr (join_bytes sep cells)))
+  /\ (forall sh sep escape v,
+       (match v with JArr _ => False | _ => True end -> format_join ff sh sep escape v = Err EFunc0Type)
+       /\ (forall vs x, v = JArr vs -> In x vs -> (match x with JArr _ | JObj _ => True | _ => False end) ->
+            hole_free v = true -> format_join ff sh sep escape v = Err EFormatRow))
+  /\ (forall v s, f_tostring ff (JStr s) = Val (JStr s)
+       /\ (match v with JStr _ => False | _ => True end -> f_tostring ff v = f_tojson ff v)
+       /\ f_format ff v (JStr (codes "text")) = f_tostring ff v /\ f_format ff v (JStr (codes "json")) = f_tojson ff v).
+Proof.
+  exact (fun pf ff => conj (f_join_doc pf ff) (conj
+    (fun sh sep escape vs cells E => eq_trans (format_join_doc ff sh sep escape vs)
+       (f_equal (fun o => match o with Some c => Val (JStr (join_bytes sep c)) | None => format_join ff sh sep escape (JArr vs) end) E))
+    (conj (format_join_errors ff)
+    (fun v s => conj (proj1 (tostring_dispatch ff v JNull) s) (conj (proj1 (proj2 (tostring_dispatch ff v JNull)))
+       (conj (proj1 (proj2 (proj2 (tostring_dispatch ff v JNull)))) (proj1 (proj2 (proj2 (proj2 (tostring_dispatch ff v JNull))))))))))).
+Qed.
+Print Assumptions C03_text_rules.
+
+(* fifth batch: toboolean, unary + and -, number predicates, the math natives (the table function -- a
+   correctly rounded Flocq operation for the ten exact ones, libm otherwise -- applied to the doubles the
+   arguments denote), ltrim / rtrim / trim on valid UTF-8, .[s:e] on null / arrays with null or integer
+   bounds *)
+Theorem C03_natives_meet_doc5 : forall pf, (forall z, big_to_float pf z = Z2F z) ->
+  forall v x y, wf v = true -> wf x = true -> wf y = true ->
+     agrees pf (f_toboolean v) (s_toboolean (denote pf v))
+  /\ agrees pf (op_plus v) (s_plus (denote pf v))
+  /\ (not_literal v -> agrees pf (op_negate v) (s_negate (denote pf v)))
+  /\ agrees pf (f_isnan pf v) (s_isnan (denote pf v)) /\ agrees pf (f_isinfinite pf v) (s_isinfinite (denote pf v))
+  /\ agrees pf (f_isfinite pf v) (s_isfinite (denote pf v)) /\ agrees pf (f_isnormal pf v) (s_isnormal (denote pf v))
+  /\ (forall l1 name, agrees pf (f_math1 pf l1 name v) (s_math1 (math1 l1 name) (denote pf v)))
+  /\ (forall l2 name, agrees pf (f_math2 pf l2 name x y) (s_math2 (math2 l2 name) (denote pf x) (denote pf y)))
+  /\ (forall l3 name, agrees pf (f_math3 pf l3 name v x y) (s_math3 (l3 name) (denote pf v) (denote pf x) (denote pf y)))
+  /\ (forall l1 l2 a b,
+        math1 l1 "floor" a = fnearbyint mode_DN a /\ math1 l1 "ceil" a = fnearbyint mode_UP a
+        /\ math1 l1 "trunc" a = fnearbyint mode_ZR a /\ math1 l1 "round" a = fnearbyint mode_NA a
+        /\ math1 l1 "rint" a = fnearbyint mode_NE a /\ math1 l1 "nearbyint" a = fnearbyint mode_NE a
+        /\ math1 l1 "fabs" a = fabs a /\ math1 l1 "sqrt" a = fsqrt a
+        /\ math2 l2 "fmax" a b = fmax_go a b /\ math2 l2 "fmin" a b = fmin_go a b)
+  /\ (ragrees pf (f_ltrim v) (s_trim true false (denote pf v)) /\ ragrees pf (f_rtrim v) (s_trim false true (denote pf v))
+      /\ ragrees pf (f_trim v) (s_trim true true (denote pf v)))
+  /\ (sized v = true -> (match v with JStr _ => False | _ => True end) -> no_float pf x -> no_float pf y ->
+      ragrees pf (f_slice pf v x y) (s_slice (denote pf v) (denote pf x) (denote pf y))).
+Proof.
+  exact (fun pf H v x y WV WX WY =>
+    conj (f_toboolean_doc pf v WV) (conj (op_plus_doc pf v WV) (conj (op_negate_doc pf v WV)
+    (conj (f_isnan_doc pf H v WV) (conj (f_isinfinite_doc pf H v WV) (conj (f_isfinite_doc pf H v WV) (conj (f_isnormal_doc pf H v WV)
+    (conj (fun l1 name => f_math1_doc pf H l1 name v WV) (conj (fun l2 name => f_math2_doc pf H l2 name x y WX WY)
+    (conj (fun l3 name => f_math3_doc pf H l3 name v x y WV WX WY) (conj (fun l1 l2 a b => math_exact l1 l2 a b)
+    (conj (f_trim_doc pf v WV) (f_slice_doc pf H v x y WV WX WY))))))))))))).
+Qed.
+Print Assumptions C03_natives_meet_doc5.
+
 (* error / halt_error: the dispatch *)
 Theorem C03_error_dispatch : forall pf v a,
   f_error v [] = Err (EUser v) /\ f_error v [a] = Err (EUser a)
@@ -193,6 +294,29 @@ Theorem C03_natives_rep : forall pf, (forall z, big_to_float pf z = Z2F z) ->
   /\ rep1 pf (f_minmax pf true) /\ rep1 pf (f_minmax pf false) /\ rep1 pf (f_add pf).
 Proof. exact natives_rep1. Qed.
 Print Assumptions C03_natives_rep.
+(* binary natives proved to meet their documented function; natives with a partial Spec entry *)
+Theorem C03_natives_rep2 : forall pf, (forall z, big_to_float pf z = Z2F z) ->
+  rep2 pf (f_contains pf) /\ rep2 pf (f_inside pf) /\ rep2 pf (f_indices pf) /\ rep2 pf (f_index pf) /\ rep2 pf (f_rindex pf)
+  /\ rep2 pf f_startswith /\ rep2 pf f_endswith /\ rep2 pf f_ltrimstr /\ rep2 pf f_rtrimstr /\ rep2 pf f_trimstr
+  /\ (forall b, rep2 pf (f_minmax_by pf b)) /\ rep1 pf (f_tonumber pf) /\ rep1 pf f_transpose.
+Proof. exact natives_rep2. Qed.
+Print Assumptions C03_natives_rep2.
+Theorem C03_natives_rep3 : forall pf, (forall z, big_to_float pf z = Z2F z) ->
+  rep1 pf f_toboolean /\ rep1 pf op_plus /\ rep1 pf (f_isnan pf) /\ rep1 pf (f_isinfinite pf) /\ rep1 pf (f_isfinite pf) /\ rep1 pf (f_isnormal pf).
+Proof. exact natives_rep3. Qed.
+Print Assumptions C03_natives_rep3.
+Theorem C03_natives_rep_partial : forall pf, (forall z, big_to_float pf z = Z2F z) ->
+  forall v v' x x', wf v = true -> wf v' = true -> wf x = true -> wf x' = true ->
+  denote pf v = denote pf v' -> denote pf x = denote pf x' ->
+  orep pf (f_ascii_downcase v) (f_ascii_downcase v') (s_ascii false (denote pf v))
+  /\ orep pf (f_ascii_upcase v) (f_ascii_upcase v') (s_ascii true (denote pf v))
+  /\ orep pf (f_implode pf v) (f_implode pf v') (s_implode (denote pf v))
+  /\ orep pf (f_split v x) (f_split v' x') (match denote pf v, denote pf x with
+                                             | MStr s, MStr t => option_map (fun ps => SVal (MArr (map MStr ps))) (s_split s t)
+                                             | _, _ => Some SErr end)
+  /\ orep pf (f_flatten pf v [x]) (f_flatten pf v' [x']) (s_flatten (denote pf v) (Some (denote pf x))).
+Proof. exact natives_rep_partial. Qed.
+Print Assumptions C03_natives_rep_partial.
 (* text-producing builtins: equal text for values with the same canonical number texts *)
 Theorem C03_tojson_rep_canonical : forall ff v v', canon ff v = canon ff v' -> f_tojson ff v = f_tojson ff v'.
 Proof. exact f_tojson_rep. Qed.
